@@ -1,7 +1,7 @@
 (* C15 — property theorems only (statements pinned in Pins_C15.v). *)
 From Coq Require Import List Arith Lia Bool.
 Import ListNotations.
-From SV Require Import c15.Conc c15.Model_C15 c15.Proofs_C15 c15.Proofs_C15_Excl c15.Proofs_C15_Spawn.
+From SV Require Import c15.Conc c15.Model_C15 c15.Proofs_C15 c15.Proofs_C15_Excl c15.Proofs_C15_Spawn c15.Proofs_C15_Visible c15.Proofs_C15_Visible2.
 
 (* Serialisation (repaired lock discipline): for every number of threads, every script and every schedule,
    at most one thread is inside a stop-the-world section, and it owns the heap mutex. *)
@@ -106,3 +106,32 @@ Example C15_exit_window_free_nonvacuous :
   (let w := run cfg_fixed (firstn 10 wf_sched) (init wf_progs) in reg (th w 1) = true /\ heap w = None) /\
   pc (th (run cfg_fixed (firstn 27 wf_sched) (init wf_progs)) 0) = Stw (SAccess 1 1).
 Proof. exact exit_window_free_example. Qed.
+
+(* Visibility of completed global updates.  seen x = generation of the global table thread x holds, env_gen w = number
+   of completed updates.  For every number of threads, every script and EVERY schedule: while the second pass of an
+   update is at position k (upd_pos), the stopper and the started, unfinished threads from k on hold the previous
+   table and those below k the new one; at all other times every started, unfinished thread holds the current table
+   (a new thread copies its spawner's table under the heap guard). *)
+Theorem C15_table_generations : forall progs sched,
+  let w := run cfg_fixed sched (init progs) in
+  (forall h s k, pc (th w h) = Stw s -> upd_pos s = Some k -> vis_at w h k) /\
+  ((forall h s, pc (th w h) = Stw s -> upd_pos s = None) ->
+   forall t, live (th w t) = true -> seen (th w t) = env_gen w).
+Proof.
+  intros progs sched w. pose proof (generations_run progs sched) as HV. fold w in HV.
+  split; [exact (V_upd w HV) | exact (V_idle w HV)].
+Qed.
+
+(* Hence, along every run that avoids the exit window, a thread that executes an instruction holds the current
+   global table: a completed definition / assignment is seen by every instruction executed afterwards. *)
+Theorem C15_global_visible : forall progs sched t,
+  exit_window_free cfg_fixed sched (init progs) = true ->
+  let w := run cfg_fixed sched (init progs) in
+  pc (th w t) = Exec -> seen (th w t) = env_gen w.
+Proof. exact global_visible_lemma. Qed.
+
+Example C15_global_visible_nonvacuous :
+  exit_window_free cfg_fixed vis_sched (init wf_progs) = true /\
+  (let w := run cfg_fixed vis_sched (init wf_progs) in
+   pc (th w 1) = Exec /\ env_gen w = 1 /\ seen (th w 1) = 1 /\ seen (th w 0) = 1).
+Proof. exact global_visible_example. Qed.
